@@ -5,103 +5,172 @@
             exists|t: Seq<u8>, pos: Seq<usize>| fmd_of(self.fm(), t, pos),
             self.fm().wf(), forall|a: u8| a > 36 ==> #[trigger] self.fm().sless(a as int) >= 1,
             dna_word(pattern@), i < pattern@.len() < 0x7fff_ffff_fff0, l >= 1,
-        ensures forall|x: int| 0 <= x < res@.len() ==> res_ok(self.fm(), pattern@, i as int, l as int, #[trigger] res@[x]),
+        ensures
+            // nothing else: every reported triple is a supermaximal match covering i of length >= l, with its exact bi-interval
+            forall|x: int| 0 <= x < res@.len() ==> res_ok(self.fm(), pattern@, i as int, l as int, #[trigger] res@[x]),
+            // everything: every supermaximal match covering i of length >= l is reported
+            forall|p: int, e: int| #[trigger] tgt(self.fm(), pattern@, i as int, l as int, p, e) ==> reported(res@, p, e - p),
     {
-        let ghost fm = &self.fmindex; let ghost pat = pattern@;
+        let ghost fm = &self.fmindex; let ghost pat = pattern@; let ghost ii = i as int; let ghost ll = l as int;
         let curr = &mut Vec::new(); // pairs (biinterval, current match length)
         let prev = &mut Vec::new(); // """
         let mut matches = Vec::new(); // triples (biinterval, position on pattern, smem length)
 
         let mut match_len: usize = 0;
         let mut interval = self.init_interval_with(pattern[i]);
-        proof { assert(in_srt(pat[i as int]) && pat[i as int] != 36); lemma_in_order(pat[i as int]); }
+        proof { assert(in_srt(pat[ii]) && pat[ii] != 36); lemma_in_order(pat[ii]); }
         if interval.size != 0 {
             match_len += 1;
         }
         proof {
-            assert(pat.subrange(i as int, i + 1) =~= seq![pat[i as int]]);
-            assert(pat[i as int] > 36 && compb(pat[i as int]) > 36);
-            assert(elem_ok(fm, pat, i as int, i as int, (interval, match_len)));
+            assert(pat.subrange(ii, ii + 1) =~= seq![pat[ii]]);
+            assert(pat[ii] > 36 && compb(pat[ii]) > 36);
+            assert(elem_ok(fm, pat, ii, ii, (interval, match_len)));
+            lemma_fwd_empty(fm, pat, ii, match_len as int);
+            lemma_fwd_rec_empty(fm, pat, ii, curr@, match_len as int);
+            assert(exact(fm, seq![pat[ii]], interval));
+            if match_len == 0 { lemma_absent(fm, seq![pat[ii]], interval); }
         }
+        let ghost mut brk = false;
 
         for __i in it: i + 1..pattern.len()
             invariant_except_break
-                match_len >= 1 ==> i + match_len == __i,
+                !brk, match_len >= 1 ==> match_len == it.index@ + 1,
             invariant
-                fm == &self.fmindex, pat == pattern@, fm.wf(), dna_word(pat), i < pat.len() < 0x7fff_ffff_fff0,
+                fm == &self.fmindex, pat == pattern@, ii == i, fm.wf(), dna_word(pat), i < pat.len() < 0x7fff_ffff_fff0,
                 exists|t: Seq<u8>, pos: Seq<usize>| fmd_of(fm, t, pos),
-                elem_ok(fm, pat, i as int, i as int, (interval, match_len)),
-                forall|x: int| 0 <= x < curr@.len() ==> elem_ok(fm, pat, i as int, i as int, #[trigger] curr@[x]),
+                elem_ok(fm, pat, ii, ii, (interval, match_len)),
+                forall|x: int| 0 <= x < curr@.len() ==> elem_ok(fm, pat, ii, ii, #[trigger] curr@[x]),
+                fwd_chain(fm, pat, ii, curr@, match_len + (if brk { 1int } else { 0int })),
+                fwd_rec(fm, pat, ii, curr@, match_len + (if brk { 1int } else { 0int })),
+                match_len == 0 ==> curr@.len() == 0 && absent(fm, pat.subrange(ii, ii + 1)),
+                brk && match_len >= 1 ==> curr@.len() >= 1 && curr@[curr@.len() - 1].1 == match_len && rmaxp(fm, pat, ii, ii + match_len),
+            ensures
+                !brk && match_len >= 1 ==> ii + match_len == pat.len(),
         { let a = pattern[__i];
-            proof { lemma_elem_fits(self, pat, i as int, i as int, (interval, match_len)); assert(in_srt(pat[__i as int]) && pat[__i as int] != 36); }
+            proof { assert(self.fm() == fm); assert(__i == i + 1 + it.index@); lemma_elem_fits(self, pat, ii, ii, (interval, match_len)); assert(in_srt(pat[__i as int]) && pat[__i as int] != 36); }
             // forward extend interval
             let forward_interval = self.forward_ext(&interval, a);
+            let ghost w = pat.subrange(ii, ii + match_len);
+            let ghost wa = pat.subrange(ii, ii + match_len + 1);
+            proof {
+                if match_len >= 1 {
+                    assert(w.push(a) =~= wa);
+                    assert forall|t: Seq<u8>, pos: Seq<usize>| #[trigger] fmd_of(fm, t, pos) implies bi_ok(t, pos, wa, forward_interval.lo(), forward_interval.lo_rev(), forward_interval.sz()) by {
+                        assert(bi_ok(t, pos, w, interval.lo(), interval.lo_rev(), interval.sz()));
+                    }
+                    assert(exact(fm, wa, forward_interval));
+                }
+            }
 
             // if size changed, add last interval to list
             if interval.size != forward_interval.size {
+                proof { lemma_fwd_push(fm, pat, ii, curr@, interval, match_len); lemma_fwd_rec_push(fm, pat, ii, curr@, interval, match_len); }
                 curr.push((interval, match_len));
+            }
+            proof {
+                if interval.sz() == forward_interval.sz() {
+                    if match_len >= 1 {
+                        lemma_fwd_same(fm, pat, ii, curr@, match_len as int, interval, forward_interval);
+                        assert(wa.subrange(0, w.len() as int) =~= w);
+                        lemma_same_size(fm, w, interval, wa, forward_interval);
+                        lemma_fwd_rec_same(fm, pat, ii, curr@, match_len as int);
+                    } else { lemma_fwd_empty(fm, pat, ii, 1); lemma_fwd_rec_empty(fm, pat, ii, curr@, 1); assert(curr@ =~= Seq::<(BiInterval, usize)>::empty()); }
+                }
             }
             // if new interval size is zero, stop, as no further forward extension is possible
             if forward_interval.size == 0 {
-                break;
-            }
-            proof {
-                let w = pat.subrange(i as int, i + match_len);
-                assert(match_len >= 1);
-                assert(w.push(a) =~= pat.subrange(i as int, i + match_len + 1));
-                assert forall|t: Seq<u8>, pos: Seq<usize>| #[trigger] fmd_of(fm, t, pos) implies bi_ok(t, pos, w.push(a), forward_interval.lo(), forward_interval.lo_rev(), forward_interval.sz()) by {
-                    assert(bi_ok(t, pos, w, interval.lo(), interval.lo_rev(), interval.sz()));
+                proof {
+                    brk = true;
+                    if match_len >= 1 { lemma_absent(fm, wa, forward_interval); }
                 }
+                break;
             }
             interval = forward_interval;
             match_len += 1;
         }
+        let ghost c1 = curr@;
         // add the last non-zero interval
         curr.push((interval, match_len));
         // reverse intervals such that longest comes first
         curr.reverse();
+        proof {
+            lemma_fwd_to_chain(fm, pat, ii, c1, interval, match_len, brk, curr@);
+            lemma_fwd_targets(fm, pat, ii, ll, c1, interval, match_len, brk, curr@);
+            let c2 = c1.push((interval, match_len)); let n = curr@.len() as int;
+            assert forall|x: int| 0 <= x < n implies elem_ok(fm, pat, ii, ii, #[trigger] curr@[x]) by { if n - 1 - x < c1.len() { assert(c2[n - 1 - x] == c1[n - 1 - x]); } }
+        }
 
         swap(curr, prev);
         let mut j = pattern.len() as isize;
+        let ghost mut done = false; let ghost mut kk = ii;
+        proof { assert forall|p: int, e: int| #[trigger] tgt(fm, pat, ii, ll, p, e) && p > ii implies reported(matches@, p, e - p) by { reveal(tgt); } }
 
         { let mut k: isize = i as isize; while k > -1
             invariant_except_break
-                k >= 0 ==> forall|x: int| 0 <= x < prev@.len() ==> elem_ok(fm, pat, i as int, k as int, #[trigger] prev@[x]),
+                k >= 0 ==> forall|x: int| 0 <= x < prev@.len() ==> elem_ok(fm, pat, ii, k as int, #[trigger] prev@[x]),
+                k >= 0 ==> chain_ok(fm, pat, k as int, prev@),
+                k >= 0 ==> c1_inv(fm, pat, ii, ll, k as int, prev@),
+                prev@.len() >= 1, !done,
             invariant
-                fm == &self.fmindex, pat == pattern@, fm.wf(), dna_word(pat), i < pat.len() < 0x7fff_ffff_fff0, l >= 1,
+                kk == k, c2_inv(fm, pat, ii, ll, kk, matches@),
+                done ==> forall|p: int, e: int| #[trigger] tgt(fm, pat, ii, ll, p, e) ==> reported(matches@, p, e - p),
+                fm == &self.fmindex, pat == pattern@, ii == i, ll == l, fm.wf(), dna_word(pat), i < pat.len() < 0x7fff_ffff_fff0, l >= 1,
                 exists|t: Seq<u8>, pos: Seq<usize>| fmd_of(fm, t, pos),
-                -1 <= k <= i, -1 <= j <= pat.len(),
-                forall|x: int| 0 <= x < matches@.len() ==> res_ok(fm, pat, i as int, l as int, #[trigger] matches@[x]),
+                -1 <= k <= i, k <= j <= pat.len(),
+                forall|x: int| 0 <= x < matches@.len() ==> res_ok(fm, pat, ii, l as int, #[trigger] matches@[x]),
+            ensures !done ==> kk == -1,
         { k -= 1;
             let a = if k == -1 { b'$' } else { pattern[k as usize] };
             curr.clear();
             // size of the last confirmed interval
             let mut last_size: isize = -1;
+            let ghost pv = prev@; let ghost s = k + 1;
+            proof {
+                lemma_chain_empty(fm, pat, k as int);
+                lemma_chain_facts(fm, pat, s, pv);
+                if k >= 0 && pv.len() >= 1 && pv[0].1 >= 1 { assert(elem_ok(fm, pat, ii, s, pv[0])); lemma_join_first(fm, pat, k as int, pv); }
+                lemma_round_start(fm, pat, ii, ll, k as int, pv, matches@);
+            }
 
             for __e in it2: prev.iter()
                 invariant
-                    fm == &self.fmindex, pat == pattern@, fm.wf(), dna_word(pat), i < pat.len() < 0x7fff_ffff_fff0, l >= 1,
+                    fm == &self.fmindex, pat == pattern@, ii == i, ll == l, fm.wf(), dna_word(pat), i < pat.len() < 0x7fff_ffff_fff0, l >= 1,
                     exists|t: Seq<u8>, pos: Seq<usize>| fmd_of(fm, t, pos),
-                    -1 <= k < i, -1 <= j <= pat.len(), a == (if k == -1 { 36u8 } else { pat[k as int] }),
-                    forall|x: int| 0 <= x < prev@.len() ==> elem_ok(fm, pat, i as int, k + 1, #[trigger] prev@[x]),
-                    k >= 0 ==> forall|x: int| 0 <= x < curr@.len() ==> elem_ok(fm, pat, i as int, k as int, #[trigger] curr@[x]),
-                    forall|x: int| 0 <= x < matches@.len() ==> res_ok(fm, pat, i as int, l as int, #[trigger] matches@[x]),
+                    k >= 0 ==> i1_inv(fm, pat, ii, ll, k as int, pv, it2.index@ as int, curr@), c2_inv(fm, pat, ii, ll, s, matches@), i3_inv(fm, pat, ii, ll, s, pv, it2.index@ as int, matches@),
+                    -1 <= k < i, k <= j <= pat.len(), a == (if k == -1 { 36u8 } else { pat[k as int] }), s == k + 1, pv == prev@,
+                    forall|x: int| 0 <= x < pv.len() ==> elem_ok(fm, pat, ii, s, #[trigger] pv[x]),
+                    chain_ok(fm, pat, s, pv),
+                    forall|x: int| 0 <= x < matches@.len() ==> res_ok(fm, pat, ii, l as int, #[trigger] matches@[x]),
+                    // no second report in one round: once the first entry has been seen, either it was reported (j == k), or it was extended
+                    // (curr is not empty), or it is too short - and then so are all later ones
+                    it2.index@ == 0 ==> k < j, curr@.len() <= it2.index@,
+                    (it2.index@ >= 1 && curr@.len() == 0) ==> (j == k || pv[0].1 < l),
+                    last_size == (if curr@.len() == 0 { -1 } else { curr@[curr@.len() - 1].0.sz() }),
+                    k >= 0 ==> forall|x: int| 0 <= x < curr@.len() ==> elem_ok(fm, pat, ii, k as int, #[trigger] curr@[x]),
+                    k >= 0 ==> chain_ok(fm, pat, k as int, curr@),
+                    // what the next entry needs in order to join curr
+                    (k >= 0 && it2.index@ < pv.len() && pv[it2.index@ as int].1 >= 1) ==> join_req(fm, pat, k as int, curr@, pv[it2.index@ as int].1 as int),
             { let (interval, match_len) = __e;
+                let ghost x = it2.index@ as int; let ghost ml = *match_len as int; let ghost e = s + ml; let ghost c0 = curr@; let ghost ms0 = matches@; let ghost j0 = j as int;
                 proof {
-                    assert(*__e == prev@[it2.index@ as int]);
-                    lemma_elem_fits(self, pat, i as int, k + 1, *__e);
+                    assert(*__e == pv[x]);
+                    assert(self.fm() == fm);
+                    lemma_elem_fits(self, pat, ii, s, *__e);
+                    lemma_chain_facts(fm, pat, s, pv);
                     if k >= 0 { assert(in_srt(pat[k as int]) && pat[k as int] != 36); lemma_in_order(a); } else { lemma_idx_of(); assert(order()[0] == 36); }
                 }
                 // backward extend interval
                 let forward_interval = self.backward_ext(interval, a);
+                let ghost w = pat.subrange(s, e); let ghost aw = pat.subrange(k as int, e);
                 proof {
-                    if *match_len >= 1 && k >= 0 {
-                        let ml = *match_len as int; let w = pat.subrange(k + 1, k + 1 + ml);
-                        assert(seq![a] + w =~= pat.subrange(k as int, k + 1 + ml));
-                        assert forall|t: Seq<u8>, pos: Seq<usize>| #[trigger] fmd_of(fm, t, pos) implies bi_ok(t, pos, seq![a] + w, forward_interval.lo(), forward_interval.lo_rev(), forward_interval.sz()) by {
+                    if ml >= 1 && k >= 0 {
+                        assert(seq![a] + w =~= aw);
+                        assert forall|t: Seq<u8>, pos: Seq<usize>| #[trigger] fmd_of(fm, t, pos) implies bi_ok(t, pos, aw, forward_interval.lo(), forward_interval.lo_rev(), forward_interval.sz()) by {
                             assert(bi_ok(t, pos, w, interval.lo(), interval.lo_rev(), interval.sz()));
                         }
-                        if forward_interval.sz() == 0 { lemma_absent(fm, seq![a] + w, forward_interval); }
+                        assert(exact(fm, aw, forward_interval));
+                        if forward_interval.sz() == 0 { lemma_absent(fm, aw, forward_interval); }
                     }
                 }
 
@@ -112,20 +181,39 @@
                         curr.is_empty() && k < j &&
                         *match_len >= l
                 {
+                    proof {
+                        // only the first (longest) entry can get here
+                        if x >= 1 { assert(pv[0].1 >= pv[x].1); }
+                        assert(x == 0);
+                        assert(rmaxp(fm, pat, s, e));
+                    }
                     j = k;
                     matches.push((*interval, (k + 1) as usize, *match_len));
                 }
                 // add _interval to curr (will be further extended next iteration)
                 if forward_interval.size != 0 && forward_interval.size as isize != last_size {
                     last_size = forward_interval.size as isize;
+                    proof { if k >= 0 { if x >= 1 { assert(s + pv[x].1 + 1 <= pat.len()); } lemma_chain_push(fm, pat, k as int, c0, (forward_interval, (*match_len + 1) as usize)); } }
                     curr.push((forward_interval, match_len + 1));
                 }
+                proof {
+                    if k >= 0 && x + 1 < pv.len() && pv[x + 1].1 >= 1 {
+                        assert(pv[x].1 >= pv[x + 1].1);
+                        lemma_join_next(fm, pat, ii, k as int, pv, x, c0, curr@, forward_interval);
+                    }
+                    lemma_round_step(self, pat, ii, ll, k as int, j0, pv, x, c0, curr@, forward_interval, ms0, matches@);
+                }
             }
+            proof { lemma_round_end(fm, pat, ii, ll, k as int, pv, curr@, matches@); kk = k as int; }
             if curr.is_empty() {
+                proof { done = true; }
                 break;
             }
             swap(curr, prev);
         } }
+        proof {
+            if !done { assert(kk == -1); assert forall|p: int, e: int| #[trigger] tgt(fm, pat, ii, ll, p, e) implies reported(matches@, p, e - p) by { reveal(tgt); } }
+        }
 
         matches
     }
